@@ -24,6 +24,12 @@ BAND = z3.Function("band", _I, _I, _I)
 BOR = z3.Function("bor", _I, _I, _I)
 BXOR = z3.Function("bxor", _I, _I, _I)
 IPOW = z3.Function("ipow", _I, _I, _I)
+IROUND = z3.Function("iround", _I, _I, _I)
+RROUND1 = z3.Function("rround1", _R, _I)
+RROUND2 = z3.Function("rround2", _R, _R, _R)
+RFLOOR = z3.Function("rfloor", _R, _I)
+RCEIL = z3.Function("rceil", _R, _I)
+RTRUNC = z3.Function("rtrunc", _R, _I)
 
 
 def lift_int(x):
@@ -162,6 +168,8 @@ class SymInt:
         return SymInt(e, hm, lo, hi)
 
     def _bin(self, o, f, rev=False):
+        if isinstance(o, (float, np.floating)) and o != o:
+            return float("nan") if f in _RF else NotImplemented
         if isinstance(o, (float, np.floating, SymReal, Fraction)):
             return SymReal(z3.ToReal(self.e))._b(o, _RF[f], rev) if f in _RF else NotImplemented
         b = lift_int(o)
@@ -200,9 +208,12 @@ class SymInt:
         return self._mk(-self.e - 1)
 
     def __round__(self, n=None):
-        if n is None or (isinstance(n, int) and n >= 0):
+        if n is None or (isinstance(n, int) and not isinstance(n, bool) and n >= 0):
             return self
-        raise Inconclusive("round(SymInt, negative)")
+        b = lift_int(n)
+        if b is None:
+            return NotImplemented
+        return self._mk(IROUND(self.e, b))
 
     def __trunc__(self):
         return self
@@ -223,6 +234,8 @@ class SymInt:
         return a - b * SymInt._fd(a, b)
 
     def _divop(self, o, f, rev):
+        if isinstance(o, (float, np.floating)) and o != o:
+            return float("nan")
         b = lift_int(o)
         if b is None:
             return NotImplemented
@@ -246,6 +259,8 @@ class SymInt:
         return self._divop(o, SymInt._md, True)
 
     def __divmod__(self, o):
+        if lift_int(o) is None:
+            return NotImplemented
         return (self // o, self % o)
 
     def __truediv__(self, o):
@@ -265,13 +280,19 @@ class SymInt:
         b = lift_int(o)
         if b is None:
             return NotImplemented
-        return self._mk(IPOW(self.e, b), o)
+        return self._pow(self.e, b, o)
 
     def __rpow__(self, o):
         b = lift_int(o)
         if b is None:
             return NotImplemented
-        return self._mk(IPOW(b, self.e))
+        return self._pow(b, self.e, o)
+
+    def _pow(self, base, exp, o):
+        # Python: 0 ** negative raises ZeroDivisionError
+        if core.cur().branch(z3.And(base == 0, exp < 0)):
+            raise ZeroDivisionError("0.0 cannot be raised to a negative power")
+        return self._mk(IPOW(base, exp), o)
 
     def __and__(self, o):
         return self._bin(o, _band)
@@ -292,6 +313,8 @@ class SymInt:
         return self._bin(o, _bxor, True)
 
     def _cmp(self, o, f):
+        if isinstance(o, (float, np.floating)) and o != o:
+            return f is _ne
         if isinstance(o, (float, np.floating, SymReal, Fraction)):
             return SymReal(z3.ToReal(self.e))._c(o, f)
         b = lift_int(o)
@@ -379,9 +402,12 @@ class SymReal:
     def __format__(self, spec):
         return repr(self)
 
-    __hash__ = None
+    def __hash__(self):
+        return 0
 
     def _b(self, o, f, rev=False):
+        if isinstance(o, (float, np.floating)) and o != o:
+            return float("nan")
         b = lift_real(o)
         if b is None:
             return NotImplemented
@@ -407,6 +433,8 @@ class SymReal:
     __rmul__ = __mul__
 
     def _div(self, o, rev):
+        if isinstance(o, (float, np.floating)) and o != o:
+            return float("nan")
         b = lift_real(o)
         if b is None:
             return NotImplemented
@@ -447,15 +475,23 @@ class SymReal:
         b = lift_real(o)
         if b is None:
             return NotImplemented
-        return SymReal(RPOW(self.e, b))
+        return self._pow(self.e, b)
 
     def __rpow__(self, o):
         b = lift_real(o)
         if b is None:
             return NotImplemented
-        return SymReal(RPOW(b, self.e))
+        return self._pow(b, self.e)
+
+    @staticmethod
+    def _pow(base, exp):
+        if core.cur().branch(z3.And(base == 0, exp < 0)):
+            raise ZeroDivisionError("0.0 cannot be raised to a negative power")
+        return SymReal(RPOW(base, exp))
 
     def _c(self, o, f):
+        if isinstance(o, (float, np.floating)) and o != o:
+            return f is _ne
         b = lift_real(o)
         if b is None:
             return NotImplemented
@@ -481,6 +517,23 @@ class SymReal:
 
     def __bool__(self):
         return core.cur().branch(self.e != 0)
+
+    def __round__(self, n=None):
+        if n is None:
+            return SymInt(RROUND1(self.e))
+        b = lift_real(n)
+        if b is None:
+            return NotImplemented
+        return SymReal(RROUND2(self.e, b))
+
+    def __floor__(self):
+        return SymInt(z3.ToInt(self.e))
+
+    def __ceil__(self):
+        return SymInt(-z3.ToInt(-self.e))
+
+    def __trunc__(self):
+        return SymInt(z3.If(self.e >= 0, z3.ToInt(self.e), -z3.ToInt(-self.e)))
 
     def sqrt(self):
         p = SQRTF(self.e)
